@@ -395,6 +395,76 @@ class _Flow(object):
     st.delta = ex.delta
     self._shift(st, ex.grow)
 
+  # -- what a branch tells about counts
+  def _zero_exprs(self, test, pol):
+    """Expressions known to be zero (an int local) / empty (a list local) on the branch of `test`
+    with truth value pol. Counts are lengths and length differences of lists that only grow, so
+    `n > 0` being false means n == 0."""
+    out = []
+    if isinstance(test, ast.UnaryOp) and isinstance(test.op, ast.Not):
+      return self._zero_exprs(test.operand, not pol)
+    if isinstance(test, ast.BoolOp):
+      if (isinstance(test.op, ast.And) and pol) or (isinstance(test.op, ast.Or) and not pol):
+        for v in test.values:
+          out += self._zero_exprs(v, pol)
+      return out
+    if isinstance(test, ast.Name):
+      return [test] if not pol else []
+    if isinstance(test, ast.Call) and dotted(test.func) in ("len", "bool") and len(test.args) == 1:
+      return [test] if not pol else []
+    if isinstance(test, ast.Compare) and len(test.ops) == 1:
+      l, r, op = test.left, test.comparators[0], test.ops[0]
+      if isinstance(l, ast.Constant) and not isinstance(r, ast.Constant):
+        l, r = r, l
+        op = {ast.Lt: ast.Gt, ast.Gt: ast.Lt, ast.LtE: ast.GtE, ast.GtE: ast.LtE}.get(type(op),
+                                                                                     type(op))()
+      if isinstance(r, ast.Constant) and isinstance(r.value, int) and \
+          not isinstance(r.value, bool):
+        k = r.value
+        zero_when = None
+        if k == 0 and isinstance(op, (ast.Eq, ast.LtE)):
+          zero_when = True
+        elif k == 0 and isinstance(op, (ast.NotEq, ast.Gt)):
+          zero_when = False
+        elif k == 1 and isinstance(op, ast.Lt):
+          zero_when = True
+        elif k == 1 and isinstance(op, ast.GtE):
+          zero_when = False
+        if zero_when is not None and pol == zero_when:
+          return [l]
+    return out
+
+  def _refine(self, fn, test, pol, st):
+    for e in self._zero_exprs(test, pol):
+      v = self._eval(fn, e, st)
+      if v is None and isinstance(e, ast.Call) and dotted(e.func) == "bool":
+        e = e.args[0]
+      if v is None and isinstance(e, ast.Name) and e.id not in st.env and \
+          _list_attr(fn, e) is None and self._stable(fn, e.id):
+        v = (0, {("len", e.id, fn.qualname): 1})      # an empty list local
+      if v is None or v[0] != 0:
+        continue
+      off = v[1]
+      syms = [s_ for s_, c_ in off.items() if s_ != 1 and c_ in (1, -1)]
+      if not syms:
+        continue
+      s_ = syms[0]
+      c_ = off[s_]
+      rest = dict(off)
+      del rest[s_]
+      repl = _ladd({}, rest, -c_)           # s_ = -rest / c_   (c_ is +-1)
+      def sub(l):
+        if l == TOP or l is None or s_ not in l:
+          return l
+        k = l[s_]
+        l2 = dict(l)
+        del l2[s_]
+        return _ladd(l2, repl, k)
+      st.delta = sub(st.delta)
+      st.grow = sub(st.grow)
+      for k_, (a_, o_) in list(st.env.items()):
+        st.env[k_] = (a_, sub(o_))
+
   # -- a whole function
   def run(self, fn, st0, stack=()):
     cfg = fn.cfg
@@ -413,9 +483,18 @@ class _Flow(object):
       if nid in OUT and OUT[nid].key() == st.key():
         continue
       OUT[nid] = st
+      node = cfg.nodes[nid]
       for t in cfg.succ[nid]:
         if t == cfg.raise_exit.id:
           continue
+        st_out = st
+        if node.kind == "if" and nid in cfg.if_true:
+          on_true = t in cfg.if_true[nid]
+          on_false = t in (set(cfg.succ[nid]) - cfg.if_true[nid] - cfg.if_exc.get(nid, set()))
+          if on_true != on_false:
+            st_out = st.copy()
+            self._refine(fn, node.stmt.test, on_true, st_out)
+        st_prev, st = st, st_out
         if t not in IN:
           IN[t] = st.copy()
           work.append(t)
@@ -429,6 +508,7 @@ class _Flow(object):
             IN[t] = new
             if t not in work:
               work.append(t)
+        st = st_prev
     return IN.get(cfg.exit.id)
 
 
